@@ -3,6 +3,7 @@ package c08
 import (
 	"context"
 	"fmt"
+	"runtime/debug"
 	"sort"
 	"strings"
 	"time"
@@ -112,6 +113,15 @@ func worldClaims(class string) []claim {
 
 		{"p5", "set", "tag", "foo", 14},
 		{"p5", "set", "camliNodeType", "typeA", 50}, // modtime ties with p1
+	}
+	if class == "located" {
+		// two permanodes with a location (latitude/longitude attributes); the other four have none
+		cl = append(cl,
+			claim{"p2", "set", "latitude", "10.5", 26},
+			claim{"p2", "set", "longitude", "20.5", 27},
+			claim{"p5", "set", "latitude", "-33.25", 51},
+			claim{"p5", "set", "longitude", "151.5", 52},
+		)
 	}
 	if class != "claimless" {
 		cl = append(cl,
@@ -280,9 +290,32 @@ func (m *mblob) modTime() time.Time {
 func runQuery(w *W, q *search.SearchQuery) (res *search.SearchResult, err error, panicked string) {
 	defer func() {
 		if r := recover(); r != nil {
-			panicked = fmt.Sprint(r)
+			panicked = panicSite(string(debug.Stack())) + ": " + fmt.Sprint(r)
 		}
 	}()
 	res, err = w.h.Query(context.Background(), q)
 	return
+}
+
+// panicSite returns the perkeep function in which the panic was raised
+// (first perkeep.org frame below the runtime's panic frames).
+func panicSite(stack string) string {
+	lines := strings.Split(stack, "\n")
+	seenPanic := false
+	for _, l := range lines {
+		if strings.HasPrefix(l, "panic(") {
+			seenPanic = true
+			continue
+		}
+		if !seenPanic || strings.HasPrefix(l, "\t") {
+			continue
+		}
+		if strings.HasPrefix(l, "perkeep.org/") {
+			if i := strings.LastIndex(l, "("); i > 0 {
+				l = l[:i]
+			}
+			return l
+		}
+	}
+	return "?"
 }
